@@ -119,6 +119,35 @@ def build_jobs(tier, seed, stats, want_ops=True):
                 st = sg.around_wrap_extended(rd)
                 if st is not None:
                     steps.ev_apply(b, rd, di, st, tag="wrapx")
+            # typing / deleting / inserting an inline leaf inside text, also next to non-BMP characters
+            from prosemirror.model import Fragment, Slice
+            from prosemirror.transform import ReplaceStep
+            texts = []
+            rd.descendants(lambda node, pos, parent, index: texts.append((pos, node, parent)) if node.is_text else None)
+            leaves = [t for t in sch.nodes.values() if t.is_inline and t.is_leaf and not t.is_text and not t.has_required_attrs()]
+            for pos, node, parent in (texts if len(texts) <= 5 else rng.sample(texts, 5)):
+                us = proj.units(node.text)
+
+                def boundary():
+                    off = rng.randint(0, len(us))
+                    if 0 < off < len(us) and 0xDC00 <= us[off] < 0xE000:
+                        off += 1          # not between the halves of a surrogate pair (known finding of C02)
+                    return off
+                for _ in range(4):
+                    off = boundary()
+                    kind = rng.choice(["type", "type", "delete", "leaf"])
+                    if kind == "type":
+                        ins = rng.choice(["x", "\U0001F600", "ab", "\U0001F601y"])
+                        st = ReplaceStep(pos + off, pos + off, Slice(Fragment.from_(sch.text(ins, node.marks)), 0, 0))
+                    elif kind == "delete":
+                        off2 = boundary()
+                        lo, hi = min(off, off2), max(off, off2)
+                        st = ReplaceStep(pos + lo, pos + hi, Slice.empty)
+                    elif leaves:
+                        st = ReplaceStep(pos + off, pos + off, Slice(Fragment.from_(rng.choice(leaves).create()), 0, 0))
+                    else:
+                        continue
+                    steps.ev_apply(b, rd, di, st, tag="typing")
             if want_ops:
                 # steps emitted by high-level operations
                 from prosemirror.transform import Transform
@@ -202,7 +231,7 @@ def run(tier: str, seed: int, t0: float) -> int:
                        ("removeMark:ok", 200), ("addNodeMark:ok", 50), ("removeNodeMark:ok", 50), ("attr:ok", 50),
                        ("docAttr:ok", 20)):
         if stats.counts.get(key, 0) < least:
-            raise core.MachineryError(f"vacuity gate: {key}={stats.counts.get(key, 0)} < {least}")
+            core.vacuity(out, f"vacuity gate: {key}={stats.counts.get(key, 0)} < {least}")
     return core.finish("C01", tier, seed, stats, out, t0,
                        rule="(document, step) pairs: TLC-generated small documents x enumerated steps of all types; random documents of "
                             "bundled schemas/variants x random steps (plausible-but-wrong included), each also decoded from JSON text; "
